@@ -23,15 +23,15 @@ package shiftdfa
 //@     invariant 0 <= e && e < len(t.SymbolMap) && len(symBytes) == t.NumSymbols && i <= 128
 //@     invariant fresh(symBytes) && forall k in 0..len(symBytes) :: fresh(symBytes[k])
 //@   loop 2:
-//@     invariant 0 <= state && state <= states && states * t.NumSymbols == len(t.Dfa) && states <= 11 && len(symBytes) == t.NumSymbols
+//@     invariant 0 <= state && state <= states && states * t.NumSymbols == len(t.Dfa) && states <= 10 && len(symBytes) == t.NumSymbols
 //@   loop 3:
 //@     invariant 0 <= sym && sym <= t.NumSymbols && offset == state * t.NumSymbols && 0 <= state && state < states
-//@     invariant states * t.NumSymbols == len(t.Dfa) && states <= 11 && len(symBytes) == t.NumSymbols
+//@     invariant states * t.NumSymbols == len(t.Dfa) && states <= 10 && len(symBytes) == t.NumSymbols
 // every value or-ed into a row fits the 6-bit field of its state (a wider value would spill into the
 // field of the next state), and the shift keeps the field inside the 64-bit word
 //@   loop 4:
 //@     invariant 0 <= @i && @i <= len(symBytes[sym])
-//@     invariant 0 <= target && target < 64 && state * 6 + 6 <= 66
+//@     invariant 0 <= target && target < 64 && state * 6 + 6 <= 64
 //@   loop 5:
 //@     invariant 128 <= b && b <= 256
-//@     invariant 0 <= target && target < 64 && state * 6 + 6 <= 66
+//@     invariant 0 <= target && target < 64 && state * 6 + 6 <= 64
